@@ -49,6 +49,12 @@ CHECKS['C09'] = dict(engine=SYMX, technique=MUT,
 CHECKS['C03'] = dict(engine=SYMX, technique=MUT,
    text='Same corpus and mutation scheme as C09; on every path where the (strict) reference reader accepts the text, hszinc must accept it too and denote the same grid (numbers, instants, texts compared via a neutral tree). The corpus covers blanks around commas, empty cells, digit separators, exponents, INF/-INF/NaN, all escapes, CRLF, trailing commas, t/T z/Z, zone names, final newline, multi-grid documents, both versions.',
    note='Points where my recollection of the spec is uncertain are rejected by the reference as "uncertain" and thus outside the claim (listed in evidence).', ref='5 C03')
+CHECKS['C06'] = dict(engine=SYMX, technique=TXT.replace('real writer and reader', 'real JSON writer, whose output tree is decoded by an independent reference decoder (vf/spec/json_ref.py) in the same symbolic run'),
+   text='Same harness family as C02; the JSON-ready tree produced by the real writer (and, in the concrete catalogue runs and replays, the real JSON text through json.loads) is checked for shape {meta:{ver},cols:[{name}],rows:[{}]} / array of such, version-dependent Remove spelling, and decoded by an independent reference decoder; z3 is asked for a payload for which the reference rejects or recovers a different grid (numbers to six decimals).',
+   note='Reference = my recollection of the Haystack JSON encoding (uncertain points listed); numeric/temporal kinds concrete.', ref='5 C06')
+CHECKS['C05'] = dict(engine=SYMX, technique='bounded symbolic execution of the real JSON scalar decoder and an independent reference decoder on encoded scalars with one symbolic code point substituted/inserted at each position; concrete structural variants x input forms; replay',
+   text='Corpus of 25 encoded scalars (every type code and spelling the property lists); one unconstrained symbolic code point replaces / is inserted at every position; on every path where the strict reference decoder accepts, hszinc must decode to the same value (neutral tree, instants for date-times). Plus concrete runs of 7 structural grid variants x 5 input forms, including "the pre-decoded input object is unchanged" and "parsing it twice gives the same grid".',
+   note='Single-position mutations; uncertain spec points are outside the claim; grid-level forms are concrete configurations.', ref='5 C05')
 NA_REASON = {}
 
 def main():
